@@ -6,7 +6,7 @@ dependency, target dir and output root rewritten to the lane) under /tmp/lane<k>
 /repo itself is never touched. Results go into seeded/<name>/meta.json exactly like
 tools/rerun_seeds.py. Nothing registered in MANIFEST.json depends on this script.
 
-usage: rerun_seeds_parallel.py [-j N] [--benign] [names...]   (--benign: all twenty quick checks on every stored behaviour-preserving change)
+usage: rerun_seeds_parallel.py [-j N] [--lane-base B] [--benign] [names...]   (--benign: all twenty quick checks on every stored behaviour-preserving change)
 """
 import json, os, subprocess, sys, glob, re, threading, queue
 
@@ -49,6 +49,9 @@ def check(lane, pid):
             return 2, "build failed: " + out[-300:]
         rc, out = sh(f"VERIF_EVIDENCE_OUT={lane}/root/evidence/{pid}.{eng}.json timeout 1500 {lane}/target/{eng}/release/{eng} {pid} --tier quick 2>&1 | grep -v -E '^Test deadlocked, and|^Task failed, serializing schedule|^test panicked in task'")
         out_all += out
+        if rc not in (0, 1) and "VIOLATION" not in out:
+            # killed / crashed engine: a machinery failure, never a verdict
+            rc_all = max(rc_all, 2) if rc_all != 1 else 1
         if "VIOLATION" in out:
             rc_all = 1
         elif rc_all == 0 and "MACHINERY" in out:
@@ -98,9 +101,11 @@ def work(k, q, lock):
 
 def main():
     args = sys.argv[1:]
-    n = 4
+    n, base = 4, 0
     if args[:1] == ["-j"]:
         n = int(args[1]); args = args[2:]
+    if args[:1] == ["--lane-base"]:
+        base = int(args[1]); args = args[2:]
     dirs = sorted(glob.glob("/verif/seeded/*-*"))
     if args[:1] == ["--benign"]:
         dirs = sorted(glob.glob("/verif/benign/*-*")); args = args[1:]
@@ -110,7 +115,7 @@ def main():
     for d in dirs:
         q.put(d)
     lock = threading.Lock()
-    ts = [threading.Thread(target=work, args=(k, q, lock)) for k in range(n)]
+    ts = [threading.Thread(target=work, args=(base + k, q, lock)) for k in range(n)]
     for t in ts: t.start()
     for t in ts: t.join()
 
